@@ -84,6 +84,7 @@ def concrete_main(path):
     out = []
     for job in spec["jobs"]:
         c = cases[job["case"]]
+        loader.reset_stubs(g)
         P = ConcreteProvider(job.get("inputs"), job.get("seed", 0), record_values=job.get("values", False), tight=job.get("tight", False))
         err = None
         try:
@@ -141,14 +142,19 @@ def work(job):
         funcs = set()
 
         def body():
+            from . import loader
+
+            loader.reset_stubs(g)
             P = SymProvider()
             try:
                 case.fn(P, g)
             except Unsupported:
                 raise
             except Exception as e:  # noqa
-                P.fail("exception", "%s: %s" % (type(e).__name__, str(e)[:80]))
+                P.fail("exception:%s" % type(e).__name__, "%s: %s" % (type(e).__name__, str(e)[:80]))
                 P.notes["traceback"] = traceback.format_exc()[-1500:]
+                if os.environ.get("VERIF_DEBUG"):
+                    sys.stderr.write("EXC in %s: %s\n" % (case_name, traceback.format_exc()[-1200:]))
             return P
 
         ex = Explorer(feas_timeout_ms=case.feas_timeout_ms)
